@@ -53,6 +53,10 @@ _SPECS = [  # (fmt, file name the image is called by, size, dpi kwarg)
     ("PNG", "big.tif", (64, 48), (72.009, 72.009)),
     ("GIF", "one.gif", (1, 1), None),
     ("BMP", "lowres.bmp", (9, 9), (10, 10)),
+    # resolutions that do not divide 914400 (EMU per inch): the native size is a rounded quotient, not a multiple of a whole EMU-per-pixel
+    ("PNG", "odd.png", (5, 4), (110, 110)),
+    ("JPEG", "p64.jpg", (9, 2), (64, 350)),
+    ("TIFF", "fine.tif", (3, 5), (2048, 7)),
 ]
 
 
@@ -118,12 +122,14 @@ class Run:
             u = self.U[img - 1]
             nw, nh = Fraction(EMU * u["pw"], u["dx"]), Fraction(EMU * u["ph"], u["dy"])
             cx, cy = int(pic.width), int(pic.height)
+            # "to within rounding": the native size is itself a whole number of EMU in each dimension; one EMU of rounding in either
+            # native dimension, carried through the ratio, plus the final rounding (factor 2 as slack)
             if a["args"] == "w":
                 exp = Fraction(cx) * nh / nw
-                ok = cx == a["cx"] and abs(cy - exp) <= 1 + 2 * Fraction(cx) / nw
+                ok = cx == a["cx"] and abs(cy - exp) <= 1 + 2 * (Fraction(cx) / nw) * (1 + nh / nw)
             else:
                 exp = Fraction(cy) * nw / nh
-                ok = cy == a["cy"] and abs(cx - exp) <= 1 + 2 * Fraction(cy) / nh
+                ok = cy == a["cy"] and abs(cx - exp) <= 1 + 2 * (Fraction(cy) / nh) * (1 + nw / nh)
         self.pics.append({"slide": slide, "img": img, "blobOk": bool(img) and pic.image.blob == self.U[img - 1]["bytes"],
                           "cx": int(pic.width), "cy": int(pic.height), "args": a["args"], "aspectOk": bool(ok), "via": a["via"]})
 
